@@ -6,7 +6,7 @@ for d in sorted(glob.glob("/verif/seeded/*")):
     f = os.path.join(d, "meta.json")
     if not os.path.exists(f): continue
     m = json.load(open(f)); per[m["property"]].append((os.path.basename(d), m.get("fired_final", m.get("fired", []))))
-print("| property | seeded changes (rounds 1-4) | caught by its own quick check | also fired |")
+print("| property | seeded changes (rounds 1-6) | caught by its own quick check | also fired |")
 print("|---|---|---|---|")
 tot = own = 0
 for p in sorted(per):
